@@ -70,6 +70,21 @@ Representable(t, v) ==
                     ELSE MagLess(v.mag, Pow2Mag(BitsOf(t) - 1))        \*  v  <  2^(b-1)
       ELSE ~v.neg /\ (BitsOf(t) = 64 \/ MagLess(v.mag, Pow2Mag(BitsOf(t))))
 
+(* the same for a type described by what the compiler reports about it: sd = <<is_signed (1/0), numeric_limits::digits>> *)
+(* (used for the operand types that are not fixed-width typedefs: char, wchar_t, char16_t, char32_t, long long, bool)   *)
+RepresentableSD(sd, v) ==
+    IF sd[1] = 1
+      THEN IF v.neg THEN ~MagLess(Pow2Mag(sd[2]), v.mag)               \* |v| <= 2^digits
+                    ELSE MagLess(v.mag, Pow2Mag(sd[2]))                \*  v  <  2^digits
+      ELSE ~v.neg /\ (sd[2] = 64 \/ MagLess(v.mag, Pow2Mag(sd[2])))
+SDOf(t) == <<IF IsSignedT(t) THEN 1 ELSE 0, IF IsSignedT(t) THEN BitsOf(t) - 1 ELSE BitsOf(t)>>
+(* range of a type of at most 16 bits as TLA+ integers *)
+LoSD(sd) == IF sd[1] = 1 THEN -(2 ^ sd[2]) ELSE 0
+HiSD(sd) == (2 ^ sd[2]) - 1
+
+(* the six answers for two small integers, directly on TLA+'s integers (which ARE the mathematical integers) *)
+MaskInts(a, b) == B(a = b) + 2 * B(a # b) + 4 * B(a < b) + 8 * B(a > b) + 16 * B(a <= b) + 32 * B(a >= b)
+
 ----------------------------------------------------------------------------
 (* Second definition of Less: map v to the unsigned 5-limb number v + 2^64  *)
 (* (offset binary) and decide a < b by the borrow out of a - b, computed    *)
@@ -102,6 +117,9 @@ PairLaws(x, y) ==
 TripleLaws(x, y, z) == (Less(x, y) /\ Less(y, z)) => Less(x, z)
 
 IntLaws(a, b) == /\ Less(FromInt(a), FromInt(b)) <=> a < b
+                 /\ Mask(FromInt(a), FromInt(b)) = MaskInts(a, b)
+                 /\ \A t \in TypeIds : Representable(t, FromInt(a)) = RepresentableSD(SDOf(t), FromInt(a))
+                 /\ \A t \in 0..3 : Representable(t, FromInt(a)) = (LoSD(SDOf(t)) <= a /\ a <= HiSD(SDOf(t)))
                  /\ Equal(FromInt(a), FromInt(b)) <=> a = b
                  /\ IsValue(FromInt(a))
                  /\ (a > -1073741824 /\ a < 1073741824) => ToInt(FromInt(a)) = a
